@@ -96,7 +96,21 @@ def sweep_docs(fmt, quick):
     Ls = list(range(0, 72 if quick else 140)) + ([] if quick else [254, 255, 256, 257, 258, 1023, 1024, 1025, 4095, 4096, 4097])
     if quick:
         Ls += [120, 127, 128, 129, 255, 256, 257]
+    if fmt != "json":
+        Ls = sorted(set(Ls) | {78, 84, 90, 91, 93, 123, 125} | {381})      # lengths whose (last) byte is a structural marker
     docs = []
+    if fmt == "json":
+        # integer literals around the 64-bit limits (and those with more digits appended)
+        for base in (2 ** 63, 2 ** 64):
+            for d in range(-12, 25):
+                for sign in ("", "-"):
+                    for tail in ("", "0", "000"):
+                        t = (sign + str(base + d) + tail).encode()
+                        if tail == "" or d % 3 == 0:
+                            docs.append(list(b"[" + t + b"]"))
+                        if tail == "" and d % 2 == 0:
+                            docs.append(list(b'{"n":' + t + b"}"))
+                            docs.append(list(t + b" "))
     for L in Ls:
         plain = bytes(97 + (j % 26) for j in range(L))
         if fmt == "json":
@@ -184,7 +198,13 @@ def conformance_cases(ctx, prop, fmt, rows):
     for n, doc in enumerate(sweep_docs(fmt, ctx.quick)):
         cases.append(case(prop, "parse", fmt, doc=doc, origin="length sweep"))
         e = other[n % 4]
-        cases.append(case(prop, "parse", fmt, doc=doc, entry=e, origin="length sweep via " + e, **sched_variants(ctx, doc, e, rnd)))
+        kw = sched_variants(ctx, doc, e, rnd)
+        if n % 2 == 0:       # every byte its own write / read: whatever a token boundary leaves pending meets the next byte alone
+            if e in ("write", "reader"):
+                kw["cuts"] = list(range(1, len(doc)))
+            elif e == "decreader":
+                kw.update(buf=1 + n % 3, plan=[1] * (len(doc) + 2))
+        cases.append(case(prop, "parse", fmt, doc=doc, entry=e, origin="length sweep via " + e, **kw))
     return cases
 
 
@@ -361,7 +381,16 @@ def mutations(ctx, fmt, valid, rnd, nsub):
             b = rnd.choice(interesting) if rnd.random() < 0.7 else rnd.randrange(256)
             if b != doc[i]:
                 out.append((doc[:i] + [b] + doc[i + 1:], "subst"))
+        # a span removed from the middle (a shortened escape or length field directly in front of what follows it)
+        if n <= 40:
+            for span in (1, 2, 3, 4, 6):
+                for i in range(1, n - span):
+                    out.append((doc[:i] + doc[i + span:], "delete"))
     return out
+
+
+ESCAPE_RICH = [b'"\\ud83d\\ude00"', b'["\\u00e9x","\\ud83d\\ude00"]', b'{"k\\n":"\\\\\\""}', b'{"\\ud83d\\ude00":"\\u0041\\t"}', b'["a\\u12ab","\\b\\f"]',
+               b'"' + b"x" * 52 + b'\\ud83d\\ude00"', b'"' + b"y" * 58 + b'\\u00e9"']
 
 
 def c03(ctx):
@@ -379,7 +408,7 @@ def c03(ctx):
                                   origin="Gen-any %s" % r["class"], **sched_variants(ctx, doc, e, rnd)))
         valid = [r["doc"] for r in GENS[fmt](ctx, "lang", quick=True) if r["class"] == "complete" and len(r["doc"]) >= 3]
         rnd.shuffle(valid)
-        valid = valid[:150 if ctx.quick else 1500]
+        valid = valid[:150 if ctx.quick else 1500] + ([list(t) for t in ESCAPE_RICH] if fmt == "json" else [])
         muts = mutations(ctx, fmt, valid, rnd, 6 if ctx.quick else 20) + [(d, "hugelen") for d in huge_length_docs(fmt)]
         for n, (doc, how) in enumerate(muts):
             ents = [ENTRIES[n % 5]] if ctx.quick and how != "hugelen" else ENTRIES
@@ -393,7 +422,8 @@ def c03(ctx):
         ctx, "TraceCodec", cases, tf, failed, n, level_note="",
         rule="(a) TLC enumerates ALL byte strings up to MaxLen over the per-format alphabet of boundary bytes (Gen* mode any; exhaustive "
              "within that bound) with their classification by the reference automaton; (b) seeded mutations of valid documents from the "
-             "language generators: every truncation point, byte substitutions, 64-bit length fields set to 2^31..2^64-1. Each input is "
+             "language generators (plus escape-rich JSON texts): every truncation point, byte substitutions, every removed span of 1-6 bytes, "
+             "64-bit length fields set to 2^31..2^64-1. Every buffer handed to the code has capacity = length. Each input is "
              "run through Parse, Write* (+end), ParseReader, and both pull decoders under a deadline in a child process; TraceCodec "
              "requires outcome ok, allocation <= 64KiB + 64*len, events <= 8 + 4*len, and an error for inputs the reference classifies "
              "as incomplete. Distinct = distinct (bytes, entry, chunking); non-trivial = at least 2 bytes.",
@@ -1336,6 +1366,18 @@ def c15(ctx):
             flat = {("k%d" % i) + S()[:3]: S() for i in range(4)}
             cases.append(case("C15", "alias", fmt, doc=enc_doc(fmt, flat), cuts=sorted(rnd.sample(range(1, len(enc_doc(fmt, flat))), 4)),
                               sub=dict(target="mapstr", follow=enc_doc(fmt, {"o": S()}), gc=False, keycache=2), origin="flat map %d" % n))
+    # texts exactly as long as / one off the parsers' internal buffers, two per document, cut at EVERY position
+    def txt(L, off):
+        return "".join(chr(97 + (j * 7 + off) % 26) for j in range(L))
+    for L in ((15, 16, 17, 63, 64, 65) if ctx.quick else (15, 16, 17, 31, 32, 33, 63, 64, 65, 127, 128, 129, 255, 256, 257)):
+        for fmt in ("json", "ubjson", "cborl"):
+            for n, (val, fol) in enumerate((([txt(L, 0), txt(L, 3)], [txt(L, 5)]),
+                                            ({"a": txt(L, 1), txt(L, 2): "v" + txt(L // 2, 4)}, {"a": txt(L, 6)}))):
+                doc, follow = enc_doc(fmt, val), enc_doc(fmt, fol)
+                for cut in range(1, len(doc)):
+                    if ctx.quick and (cut + L + n) % 2:
+                        continue
+                    cases.append(case("C15", "alias", fmt, doc=doc, cuts=[cut], sub=dict(target=("ifc", "map")[n], follow=follow, gc=False), origin="boundary length %d" % L))
     number(cases)
     tf, st = core.run_harness(ctx, cases, binary=race_bin, deadline=20000)
     failed, nv = core.tlc_validate(ctx, "TraceCodec", tf)
@@ -1345,7 +1387,8 @@ def c15(ctx):
              "than the parser's internal 64-byte buffer, empty) x chunkings (whole, bytewise, single cuts at sampled positions, seeded "
              "multi-cuts: the chunking decides whether a token is handed over from the caller's chunk, the parser's buffer or fresh "
              "memory), each chunk a fresh buffer overwritten right after its Write, unfolded into interface{}, struct, and map targets, "
-             "some with the key cache, some with a forced GC before every event; then a follow-up document through the SAME parser and "
+             "some with the key cache, some with a forced GC before every event, plus documents holding two texts of exactly 15-17 / 63-65 "
+             "(thorough: ..257) bytes cut at every position; then a follow-up document through the SAME parser and "
              "unfolder; harness built with -race (which enables checkptr). TraceCodec!AliasVerdict compares the snapshot taken right "
              "after unfolding with the target after overwriting/reuse/GC and the by-value strings with their copies. Distinct = "
              "distinct (document, chunking, target); non-trivial = at least one cut.",
